@@ -2,8 +2,10 @@ package props
 
 import (
 	"bytes"
+	"context"
 	"errors"
 	"fmt"
+	"io"
 	"os"
 	"os/signal"
 	"path/filepath"
@@ -17,10 +19,21 @@ import (
 
 var errInjected = errors.New("injected I/O fault")
 
+// tempErr looks like a transient network error (Temporary and Timeout report true).
+type tempErr struct{}
+
+func (tempErr) Error() string   { return "injected temporary fault" }
+func (tempErr) Temporary() bool { return true }
+func (tempErr) Timeout() bool   { return true }
+
+// faultKinds: the dynamic type of the injected error must not matter
+var faultKinds = []error{errInjected, tempErr{}, syscall.EAGAIN, syscall.EINTR, syscall.ENOSPC, os.ErrDeadlineExceeded, io.ErrShortWrite, io.ErrClosedPipe, context.DeadlineExceeded, io.ErrNoProgress, &os.PathError{Op: "write", Path: "x", Err: syscall.EIO}}
+
 // faultWriter accepts bytes up to a byte offset and fails from there on.
 // short=true: the failing call reports the bytes that still fitted (n < len(p), err);
 // short=false: the failing call accepts nothing.
 type faultWriter struct {
+	err      error
 	limit    int
 	short    bool
 	accepted int
@@ -39,14 +52,22 @@ func (w *faultWriter) Write(p []byte) (int, error) {
 			n = 0
 		}
 		w.accepted += n
-		return n, errInjected
+		return n, w.fault()
 	}
-	return 0, errInjected
+	return 0, w.fault()
+}
+
+func (w *faultWriter) fault() error {
+	if w.err != nil {
+		return w.err
+	}
+	return errInjected
 }
 
 // faultReader delivers the data up to a byte offset and then fails sticky with a non-EOF error.
 // withData=true: the bytes before the offset and the error come in the same call where possible.
 type faultReader struct {
+	err      error
 	b        []byte
 	off      int
 	limit    int
@@ -60,7 +81,7 @@ func (r *faultReader) Read(p []byte) (int, error) {
 	}
 	if r.off >= r.limit {
 		r.returned++
-		return 0, errInjected
+		return 0, r.fault()
 	}
 	n := len(p)
 	if r.off+n > r.limit {
@@ -70,9 +91,16 @@ func (r *faultReader) Read(p []byte) (int, error) {
 	r.off += n
 	if r.off >= r.limit && r.withData {
 		r.returned++
-		return n, errInjected
+		return n, r.fault()
 	}
 	return n, nil
+}
+
+func (r *faultReader) fault() error {
+	if r.err != nil {
+		return r.err
+	}
+	return errInjected
 }
 
 func init() {
@@ -82,7 +110,7 @@ func init() {
 		Rule: "fault enumeration: for seeded files (API histories of C01), a failing destination at EVERY byte offset of the output stream in two modes (call rejected / short write with error) and a failing source (sticky non-EOF error, with and without data in the failing call) at EVERY byte offset of the input stream; " +
 			"plus real files: smf.WriteFile under a kernel file-size limit (RLIMIT_FSIZE, EFBIG) at every byte offset of the file. distinct = distinct (file, fault offset, mode) triples; non-trivial = the injected fault was actually returned to the library",
 		Assumptions: []string{
-			"a write fault is any error from the destination's Write (incl. a short count with error); a read fault is a non-EOF error returned by the source's Read at least once",
+			"a write fault is any error from the destination's Write (incl. a short count with error); a read fault is a non-EOF error returned by the source's Read at least once; the dynamic type of the error rotates over a dictionary (plain, Temporary/Timeout, EAGAIN, EINTR, ENOSPC, deadline exceeded, short write, closed pipe, ...)",
 			"faults placed after the last byte the reader consumes are not counted (the library never sees them)",
 			"WriteFile faults are injected by the kernel through RLIMIT_FSIZE with SIGXFSZ ignored (write returns EFBIG after a short write up to the limit)",
 		},
@@ -115,10 +143,11 @@ func runC10(c *mon.Ctx) {
 		// ---- destination faults
 		for _, k := range offsets {
 			for _, short := range []bool{false, true} {
-				w := &faultWriter{limit: k, short: short}
+				w := &faultWriter{limit: k, short: short, err: faultKinds[(k+int(i))%len(faultKinds)]}
 				var n int64
 				var err error
-				in["fault_offset"], in["short_write"] = k, short
+				in["fault_offset"], in["short_write"], in["error_kind"] = k, short, fmt.Sprintf("%T", w.err)
+				c.SetAdd("write_error_kinds", fmt.Sprintf("%T", w.err))
 				if c.Guard("panic:WriteTo", in, func() { n, err = a.s.WriteTo(w) }) {
 					continue
 				}
@@ -150,10 +179,11 @@ func runC10(c *mon.Ctx) {
 		// ---- source faults
 		for _, k := range offsets {
 			for _, withData := range []bool{false, true} {
-				rd := &faultReader{b: b, limit: k, withData: withData}
+				rd := &faultReader{b: b, limit: k, withData: withData, err: faultKinds[(k+int(i)+3)%len(faultKinds)]}
 				var s *smf.SMF
 				var err error
-				in["fault_offset"], in["error_with_data"] = k, withData
+				in["fault_offset"], in["error_with_data"], in["error_kind"] = k, withData, fmt.Sprintf("%T", rd.err)
+				c.SetAdd("read_error_kinds", fmt.Sprintf("%T", rd.err))
 				if c.Guard("panic:ReadFrom", in, func() { s, err = smf.ReadFrom(rd) }) {
 					continue
 				}
